@@ -1,16 +1,17 @@
 (* C05 -- A node is refused only when no eligible ClusterCIDR has room.
    Proved: a refusal is always reported (error result -- so the work item is queued again, C11 --
    and a CIDRNotAvailable event on the node); the candidate search of a pool finds a free block
-   whenever one exists, whatever the cursor position (C14_next_candidate).
-   Proved (Complete_proofs.v): the allocateCIDR loop with its evaluated counter is complete -- when it
-   gives up on a pool, EVERY block of that pool is a used key somewhere, overlaps a used key somewhere
-   (other ClusterCIDRs over the same addresses, any block size) or overlaps a pod CIDR of a cached node;
-   giving up is the only error it can end with, and it leaves every used set as it found it.
-   Not proved yet (checked on every implementation trace by the monitor, which recomputes free
-   capacity from the snapshot and the node cache): the lift of that statement over the sequence of
-   attempts of prioritizedCIDRs to the state the node sync started from (each attempt is complete with
-   respect to the state it starts in; attempts change cursors and reserve/release one IPv4 block). *)
-From NIPAM Require Import Sys Alloc_proofs Pool_proofs Complete_proofs.
+   whenever one exists, whatever the cursor position (C14_next_candidate); the allocateCIDR loop with
+   its evaluated counter is complete -- when it gives up on a pool, EVERY block of that pool is a used
+   key somewhere, overlaps a used key somewhere (other ClusterCIDRs over the same addresses, any block
+   size) or overlaps a pod CIDR of a cached node; giving up is the only error it can end with; and the
+   whole of prioritizedCIDRs: when it refuses, EVERY entry it considered (the matching non-terminating
+   entries, in priority order) has a family whose every block is blocked in that sense WITH RESPECT TO
+   THE STATE THE SYNC STARTED FROM (failed attempts move cursors and reserve/release one IPv4 block;
+   Complete_proofs.v shows these leave every used set as it was).
+   "Eligible" is what ordered_matching returns (C07/C17 say which entries these are); "has room" is the
+   negation of [no_room].  Holds for every state satisfying MapInv, i.e. every reachable state (C02). *)
+From NIPAM Require Import Sys Alloc_proofs Pool_proofs Inv_proofs Complete_proofs.
 Open Scope N_scope.
 
 Theorem C05_partial_refusal_is_reported :
@@ -42,6 +43,34 @@ Theorem C05_allocation_loop_complete :
   forall held m p f c pl m' e,
   get_entry m p = Some c -> pool_of c f = Some pl -> PoolInv pl -> gf (pg pl) = f -> clean_geom (pg pl) = true ->
   allocate_cidr held m p f = (m', Err e) ->
-  e = EExhausted /\ same_scans m m' /\ forall i, i < maxc (pg pl) -> blockedb m held (block (pg pl) i) = true.
+  e = EExhausted /\ msim m m' /\ forall i, i < maxc (pg pl) -> blockedb m held (block (pg pl) i) = true.
 Proof. exact allocate_cidr_complete. Qed.
 Print Assumptions C05_allocation_loop_complete.
+
+(* the property itself, at the level of one node sync, for every state with the structural invariant *)
+Theorem C05_refused_only_when_no_eligible_entry_has_room :
+  forall po lab held m node m' e ps,
+  MapInv m -> ordered_matching po lab m (n_labels node) true = Ok ps ->
+  prioritized_cidrs po lab held m node = (m', Err e) ->
+  forall p c, In p ps -> get_entry m p = Some c -> no_room m held c.
+Proof. exact prioritized_cidrs_refusal. Qed.
+Print Assumptions C05_refused_only_when_no_eligible_entry_has_room.
+
+(* [msim]: same keys, same entries, every pool with the same geometry and the same set of used keys;
+   in particular both scans answer alike *)
+Theorem C05_failed_attempts_change_no_used_set :
+  forall m m', msim m m' -> same_scans m m'.
+Proof. exact msim_scans. Qed.
+Print Assumptions C05_failed_attempts_change_no_used_set.
+
+(* non-vacuity: a one-block ClusterCIDR serves the first node; the second is refused with the event, the
+   error and the requeue -- and the first still holds the only block *)
+Example C05_nonvacuous :
+  let po0 : parse_oracle := fun _ => Some [] in
+  let lab0 : label_oracle := fun _ => [] in
+  let ops := [UCreateCC (mkCCObj [99] (FOk (mkCidr V4 167772160 28)) FEmpty 4 (Some [107]) [] false 1 0 0);
+              Construct None None []; StartInformers; UCreateNode [110;49] [] []; DeliverNode; ProcNode [POk];
+              DeliverNode; ProcNode [POk]; UCreateNode [110;50] [] []; DeliverNode; ProcNode [POk]] in
+  last (map (fun x => (ob_res (snd (fst x)), ob_fx (snd (fst x)), ob_requeued (snd (fst x)))) (trace po0 lab0 init_world ops)) (0, [], false)
+  = (2, [FxEvent 1 [110; 50]], true).
+Proof. vm_compute. reflexivity. Qed.
